@@ -240,7 +240,14 @@ theorem optTz_dqc (ts : List Tok) : RelD (optTz ts) (optTz (ts.map dqc)) := by
       simp only [↓reduceIte, Bool.false_eq_true]
       exact relD_pure _ _
 
-theorem strVals_dqc : ∀ (n : Nat) (ts : List Tok), ts.length ≤ n → RelD (strVals ts) (strVals (ts.map dqc)) := by
+theorem afterCommaEnds_dqc (tc : Bool) (r : List Tok) : afterCommaEnds tc (r.map dqc) = afterCommaEnds tc r := by
+  cases r with
+  | nil => rfl
+  | cons a b =>
+    cases a <;> try rfl
+    rename_i s; cases s <;> rfl
+
+theorem strVals_dqc (c : Cfg) : ∀ (n : Nat) (ts : List Tok), ts.length ≤ n → RelD (strVals c ts) (strVals c (ts.map dqc)) := by
   intro n
   induction n with
   | zero =>
@@ -255,24 +262,29 @@ theorem strVals_dqc : ∀ (n : Nat) (ts : List Tok), ts.length ≤ n → RelD (s
       cases t with
       | sqs v =>
         cases r with
-        | nil => trivial
+        | nil => exact relD_pure _ _
         | cons t2 r2 =>
           have hl' : r2.length ≤ n := by simp at hl; omega
           cases t2 with
           | sym s =>
-            cases s <;> try (simp only [List.map_cons, dqc, strVals, expectedAt, List.head?_cons]; trivial)
-            · simp only [List.map_cons, dqc, strVals]
-              refine relD_bind (ih r2 hl') fun vs r' => ?_
-              exact relD_pure _ _
-          | _ => simp only [List.map_cons, dqc, strVals, expectedAt]; trivial
+            cases s <;> try (simp only [List.map_cons, dqc, strVals]; exact relD_pure _ (_ :: _))
+            · simp only [List.map_cons, dqc, strVals, afterCommaEnds_dqc]
+              cases afterCommaEnds c.trailingCommas r2 with
+              | true => exact relD_pure _ _
+              | false =>
+                simp only [Bool.false_eq_true, ↓reduceIte]
+                refine relD_bind (ih r2 hl') fun vs r' => ?_
+                exact relD_pure _ _
+          | _ => simp only [List.map_cons, dqc, strVals]; exact relD_pure _ (_ :: _)
       | sym s => cases s <;> trivial
       | _ => trivial
 
-theorem stringValues_dqc (ts : List Tok) : RelD (stringValues ts) (stringValues (ts.map dqc)) := by
+theorem stringValues_dqc (c : Cfg) (ts : List Tok) : RelD (stringValues c ts) (stringValues c (ts.map dqc)) := by
   unfold stringValues
   refine relL_bind (expectSym_dqc _ (by simp) (by simp) _) fun r => ?_
-  exact strVals_dqc _ r (Nat.le_refl _)
-
+  refine relD_bind (strVals_dqc c _ r (Nat.le_refl _)) fun vs r1 => ?_
+  refine relL_bind (expectSym_dqc _ (by simp) (by simp) _) fun r2 => ?_
+  exact relD_pure _ _
 theorem charFamily_dqc (plain varying : CharKind) (large : LenKind) (ts : List Tok) :
     RelD (charFamily plain varying large ts) (charFamily plain varying large (ts.map dqc)) := by
   unfold charFamily
@@ -316,7 +328,7 @@ theorem parseLeaf_dqc (c : Cfg) (kw : DKw) (hk : kw ≠ .DATETIME64) (ts : List 
     | exact relD_bind (optCharLen_dqc _) fun l r => relD_pure _ _
     | exact relD_bind (optPrecision_dqc _) fun l r => relD_pure _ _
     | exact relD_bind (optNumInfo_dqc _) fun l r => relD_pure _ _
-    | exact relD_bind (stringValues_dqc _) fun l r => relD_pure _ _
+    | exact relD_bind (stringValues_dqc _ _) fun l r => relD_pure _ _
     | exact relD_bind (optPrecision_dqc _) fun l r => relD_bind (optTz_dqc _) fun l r => relD_pure _ _
     | exact relD_bind (optPrecision_dqc _) fun l r => (by simp only [peekKw_dqc, tail_dqc]; exact ite_dqc _ _ _ _ _)
     | exact relL_bind (expectSym_dqc _ (by simp) (by simp) _) fun r =>
